@@ -1,9 +1,13 @@
-use minijinja::{Environment, Value, context};
+use minijinja::{Environment, UndefinedBehavior, context};
 fn main() {
-    let env = Environment::new();
     for src in std::env::args().skip(1) {
-        let r = env.render_str(&src, context!{ s => "abcdef", l => vec![1,2,3] });
-        println!("{src:?} => {r:?}");
+        let mut res = vec![];
+        for mode in [UndefinedBehavior::Strict, UndefinedBehavior::SemiStrict, UndefinedBehavior::Lenient, UndefinedBehavior::Chainable] {
+            let mut env = Environment::new();
+            env.set_undefined_behavior(mode);
+            let r = env.render_str(&src, context!{ s => "abcdef", l => vec![1,2,3] });
+            res.push(match r { Ok(s) => format!("ok({s})"), Err(e) => format!("ERR({:?})", e.kind()) });
+        }
+        println!("{src:40} => {}", res.join("  "));
     }
-    let _ = Value::from(1);
 }
